@@ -38,7 +38,9 @@ enum Op {
     AdvisoryLock { exclusive: Option<bool> },
     /// environment: from here on the caller names the file another way - 0 its own path, 1 a
     /// symbolic link next to it (a stable name `current.jbk -> edition.jbk`), 2 a hard link,
-    /// 3 a path with `.` and `..` components. The same file is rewritten whatever it is called
+    /// 3 a path with `.` and `..` components, 4 its bare name (a hard link) while the process
+    /// stands in a directory whose absolute path is longer than PATH_MAX (relative names work
+    /// there, absolute ones cannot be spelled). The same file is rewritten whatever it is called
     NamedThrough { how: u8 },
     /// a request the library cannot grant: a location longer than the 213 bytes a pack
     /// description holds. Refusing it (error or panic) is fine; it must change nothing, and every
@@ -84,6 +86,25 @@ fn containers(seed: u64, tier: Tier) -> Vec<(String, Logical)> {
         out.push(mk(format!("c12-loose-p{packs}"), Packaging::Loose, packs, Comp::None, &mut k));
         out.push(mk(format!("c12-concat-p{packs}"), Packaging::Concat, packs, Comp::Zstd(3), &mut k));
     }
+    // a container with no content pack at all: its manifest lists exactly one pack (the directory)
+    out.push((
+        "c12-loose-p0".to_string(),
+        Logical {
+            comp: Comp::None,
+            packaging: Packaging::Loose,
+            n_packs: 0,
+            contents: vec![],
+            schema: SchemaSpec {
+                key_prefix: 1,
+                store: StoreKind::Plain,
+                variants: false,
+                key_pad: 0,
+            },
+            dedup: false,
+            aux_seed: seed ^ 0x12_00,
+            opts: Default::default(),
+        },
+    ));
     // a second concat order (manifest at another offset inside the container)
     out.push(mk("c12-concat-p3-b".into(), Packaging::Concat, 3, Comp::None, &mut k));
     out.push(mk("c12-concat-p4-c".into(), Packaging::Concat, 4, Comp::Lz4(3), &mut k));
@@ -225,7 +246,7 @@ fn gen_history(rng: &mut Rng, n_listed: usize, tier: Tier, boundary: &[usize], f
             });
         }
         if rng.chance(1, 8) {
-            ops.push(Op::NamedThrough { how: rng.below(4) as u8 });
+            ops.push(Op::NamedThrough { how: rng.below(5) as u8 });
         }
         if rng.chance(1, 12) {
             ops.push(Op::Overlong {
@@ -408,6 +429,14 @@ fn boundary_packs(img: &Image) -> Vec<usize> {
 }
 
 fn run_history(dir: &Path, img: &Image, ops: &[Op]) -> (Vec<String>, usize) {
+    struct BackToRoot;
+    impl Drop for BackToRoot {
+        fn drop(&mut self) {
+            let _ = std::env::set_current_dir("/");
+        }
+    }
+    let _ = std::env::set_current_dir("/");
+    let _back = BackToRoot;
     let mut bad = vec![];
     let _ = std::fs::remove_dir_all(dir);
     std::fs::create_dir_all(dir).unwrap();
@@ -491,6 +520,19 @@ fn run_history(dir: &Path, img: &Image, ops: &[Op]) -> (Vec<String>, usize) {
                     let sub = dir.join("sub");
                     let _ = std::fs::create_dir_all(&sub);
                     dir.join("sub").join("..").join(".").join(entry_name)
+                }
+                4 => {
+                    // (every other path the harness uses is absolute; the guard at the top of the
+                    // history brings the process back to "/")
+                    let _ = std::env::set_current_dir(dir);
+                    let level = "d".repeat(200);
+                    for _ in 0..24 {
+                        let _ = std::fs::create_dir(&level);
+                        std::env::set_current_dir(&level).unwrap_or_else(|e| simcore::harness_error(&format!("C12: chdir into the deep directory: {e}")));
+                    }
+                    let _ = std::fs::remove_file("m.jbkm");
+                    std::fs::hard_link(&entry, "m.jbkm").unwrap_or_else(|e| simcore::harness_error(&format!("C12: hard link in the deep directory: {e}")));
+                    std::path::PathBuf::from("m.jbkm")
                 }
                 _ => entry.clone(),
             };
